@@ -346,7 +346,10 @@ def kgraph_shard(args):
                                                 f"ancInChiOk {ans.get('ancInChiOk')} rankOk {ans.get('rankOk')}", "spec": spec, "ops": ops})
         if hyp:
             for nd, a in zip(starts, ans["chains"]):
-                if a != "hang" and not a["ok"]:
+                if a == "hang":
+                    out["disagreements"].append({"why": f"the theorem's hypotheses hold but the port runs out of fuel on {nd['sname']} (contradicts code_chain_total)",
+                                                 "spec": spec, "ops": ops})
+                elif not a["ok"]:
                     out["disagreements"].append({"why": f"the theorem's hypotheses hold but the checker rejects the chain of {nd['sname']} (contradicts code_chain_accepted)",
                                                  "spec": spec, "ops": ops})
         for nd, r, a in zip(starts, reals, ans["chains"]):
